@@ -71,6 +71,7 @@ func freeAddr() (string, error) {
 }
 
 func own(a string, on bool) {
+	a = strings.Replace(a, "localhost:", "127.0.0.1:", 1)
 	ownedMu.Lock()
 	if on {
 		owned[a] = true
@@ -155,7 +156,13 @@ type Step struct {
 	// Bad: just before this step the sender hands the same target something that cannot be serialised
 	// (1 = a plain Go string, 2 = a protobuf message with invalid UTF-8); it is dropped on its own
 	Bad int `json:"bad,omitempty"`
+	// Big: the payload is padded to 300 KiB.  At most 10 steps of a case are big (3 MB, below the
+	// 4 MB the reading side buffers by default); the first steps of every sender queue up while the
+	// connection is being made and leave as one batch.
+	Big bool `json:"big,omitempty"`
 }
+
+var bigPad = " " + strings.Repeat("x", 300*1024)
 
 type FCase struct {
 	TB      int      `json:"tb"`            // targets on node B
@@ -259,6 +266,7 @@ func runFlows(c FCase) (map[string]int, error) {
 	}
 	// what each sender expects per target
 	type flow struct{ seqs []int }
+	nbig := 0
 	want := make([]map[int]*flow, len(c.Scripts))
 	wantFins := make([]int, nt)
 	for g, sc := range c.Scripts {
@@ -278,6 +286,9 @@ func runFlows(c FCase) (map[string]int, error) {
 			if st.Bad != 0 {
 				feat["unserialisable-message-in-the-flow"]++
 			}
+			if st.Big && !st.Req {
+				nbig++
+			}
 		}
 	}
 	senderPID := func(g int) *actor.PID {
@@ -285,6 +296,12 @@ func runFlows(c FCase) (map[string]int, error) {
 			return nil
 		}
 		return actor.NewPID(addrA, fmt.Sprintf("sender/%d", g))
+	}
+	if nbig > 10 {
+		return nil, nil
+	}
+	if nbig >= 4 {
+		feat["more-than-1MiB-of-payload-early-in-the-conversation"]++
 	}
 	var wg sync.WaitGroup
 	start := make(chan struct{})
@@ -316,6 +333,9 @@ func runFlows(c FCase) (map[string]int, error) {
 					continue
 				}
 				msg := &remote.TestMessage{Data: []byte(fmt.Sprintf("%d:%d:msg", g, s))}
+				if st.Big {
+					msg.Data = append(msg.Data, bigPad...)
+				}
 				if p := senderPID(g); p != nil {
 					a.SendWithSender(pids[st.T], msg, p)
 				} else {
@@ -441,6 +461,16 @@ func genFlows(t *rapid.T) FCase {
 		c.Scripts = append(c.Scripts, sc)
 	}
 	c.TLS = rapid.IntRange(0, 3).Draw(t, "tls") == 0
+	if rapid.IntRange(0, 4).Draw(t, "bigcase") == 0 {
+		budget := 10
+		for g := range c.Scripts {
+			k := rapid.IntRange(0, min(4, len(c.Scripts[g]), budget)).Draw(t, "nbig")
+			for i := 0; i < k; i++ {
+				c.Scripts[g][i].Big = true
+			}
+			budget -= k
+		}
+	}
 	return c
 }
 
